@@ -5,7 +5,7 @@ use serde_json::{json, Value};
 use std::collections::{BTreeMap, HashSet};
 use std::panic::{catch_unwind, AssertUnwindSafe};
 
-pub const MAX_MISMATCHES_PER_PROPERTY: usize = 25;
+pub const MAX_MISMATCHES_PER_PROPERTY: usize = 8;
 
 #[derive(Default)]
 pub struct Report {
@@ -33,10 +33,16 @@ impl Report {
     }
     /// Record a disagreement between the specification's expectation and the implementation.
     pub fn mismatch(&mut self, property: &str, kind: &str, case_id: &str, detail: Value, case: &Value) {
-        *self.counters.entry(format!("mismatch:{}:{}", property, kind)).or_insert(0) += 1;
+        let per_kind = {
+            let c = self.counters.entry(format!("mismatch:{}:{}", property, kind)).or_insert(0);
+            *c += 1;
+            *c
+        };
         let n = self.per_property.entry(property.to_string()).or_insert(0);
         *n += 1;
-        if *n as usize <= MAX_MISMATCHES_PER_PROPERTY {
+        // keep the first few of EVERY kind, so that a new kind of disagreement is never hidden behind many
+        // instances of a known one
+        if per_kind as usize <= MAX_MISMATCHES_PER_PROPERTY {
             self.mismatches.push(json!({
                 "property": property, "kind": kind, "case_id": case_id, "detail": detail, "case": case
             }));
